@@ -35,6 +35,7 @@ CONFIGS = [
     ('default', True, True, False, None, 1, False, 1),
     ('cache', True, True, True, None, 1, False, 2),
     ('cache-raw', False, False, True, None, 1, False, 2),
+    ('cache-after-failed-call', True, True, True, None, 1, False, -1),   # first call lacks an argument and raises; the next one must be right
     ('stats', True, True, False, 'log', 1, False, 1),
     ('debug', True, True, True, None, 1, True, 1),
     ('debug-raw', False, False, False, None, 1, True, 1),
@@ -77,6 +78,13 @@ def run_config(cfg, outs, av):
             with parallel.maxprocs(nprocs), numpy.errstate(all='ignore'):
                 f = ev.compile(outs, _simplify=simplify, _optimize=optimize, cache_const_intermediates=cache, stats=stats)
                 r = None
+                if ncalls < 0:
+                    ncalls = 1
+                    for drop in sorted(av)[:2]:
+                        try:
+                            f({k: v for k, v in av.items() if k != drop})
+                        except Exception:
+                            pass
                 for _ in range(ncalls):
                     r = f(av)
                 return r
